@@ -765,8 +765,12 @@ def N10_commit_loop(ctx):
         # exits
         ret = [e for e in p.events if e.kind == 'ret'][0]
         rv = ret.d['value']
-        if not (rv[0] == 'agg' and rv[1].endswith('CommitLoopResult') and has_call(rv[3][0], 'OrderedCommitOutput::with_capacity')):
+        first_out = [e for e in p.events if is_call(e, 'OrderedCommitOutput::with_capacity')]
+        if not (rv[0] == 'agg' and rv[1].endswith('CommitLoopResult') and first_out and rv[3][0] == first_out[0].d['result']):
             bad_ret.append(ret)
+        for e in calls(p, "OrderedCommitter::<'a, DB>::commit"):
+            if not (first_out and e.d['args'][4] == first_out[0].d['result']):
+                bad_ret.append(e)
         ab = calls(p, 'Scheduler<DB>>::abort')
         if not ab:
             # must be a loop-condition exit: last decided loop condition is aborted==true or idx<block_size false
